@@ -353,6 +353,11 @@ theorem mem_range_intersect (initial : Candidate) (r : Range) (x : Value)
   refine ⟨?_, wf_intersect' _ _ hi.2 hw⟩
   rw [mem_intersect' _ _ x hi.2 hw, hi.1, hr]; rfl
 
+theorem rangeCandidateOfTag_ok {ni : Bool} {v : Value} {mk : R Range} {initial c : Candidate}
+    (h : rangeCandidateOfTag ni v mk initial = .ok c) (hv : Cand.isNull v = false) :
+    mk.map (fun r => initial.intersect (.range r)) = .ok c := by
+  simpa [rangeCandidateOfTag, hv] using h
+
 /-- **Local soundness, tag operand** — every operator except `>=`.  A property value that passes
 `x op tagValue` and is a member of the initial candidate is a member of the candidate that
 `compute_candidate_from_operation` / `resolve_fold_specific_field` build for the tag value; a tag
@@ -383,7 +388,7 @@ theorem candidateOfTag_sound_partial (rx : RegexEngine) (ni : Bool) (o : BinOp) 
         Bool.not_eq_true'] at hf
       exact ⟨exclude_keeps' _ v x hi.2 hi.1 hf, wf_exclude' _ v hi.2⟩
     case lessThan =>
-      obtain ⟨r, hr, hc⟩ := R_map_ok hc; cases hc
+      obtain ⟨r, hr, hc⟩ := R_map_ok (rangeCandidateOfTag_ok hc (cmpFn_true_cmp .lt x v hf).2.2); cases hc
       obtain ⟨rfl, h1, h2⟩ := rangeNew_ok hr
       have := cmpFn_true_cmp .lt x v hf
       apply mem_range_intersect _ _ _ hi
@@ -391,7 +396,7 @@ theorem candidateOfTag_sound_partial (rx : RegexEngine) (ni : Bool) (o : BinOp) 
         simpa [CmpOp.onOrdering] using this.1
       · simp [Candidate.wf, h1, h2]
     case lessThanOrEqual =>
-      obtain ⟨r, hr, hc⟩ := R_map_ok hc; cases hc
+      obtain ⟨r, hr, hc⟩ := R_map_ok (rangeCandidateOfTag_ok hc (cmpFn_true_cmp .le x v hf).2.2); cases hc
       obtain ⟨rfl, h1, h2⟩ := rangeNew_ok hr
       have := cmpFn_true_cmp .le x v hf
       apply mem_range_intersect _ _ _ hi
@@ -399,7 +404,7 @@ theorem candidateOfTag_sound_partial (rx : RegexEngine) (ni : Bool) (o : BinOp) 
         simpa [CmpOp.onOrdering] using this.1
       · simp [Candidate.wf, h1, h2]
     case greaterThan =>
-      obtain ⟨r, hr, hc⟩ := R_map_ok hc; cases hc
+      obtain ⟨r, hr, hc⟩ := R_map_ok (rangeCandidateOfTag_ok hc (cmpFn_true_cmp .gt x v hf).2.2); cases hc
       obtain ⟨rfl, h1, h2⟩ := rangeNew_ok hr
       have := cmpFn_true_cmp .gt x v hf
       apply mem_range_intersect _ _ _ hi
@@ -410,6 +415,7 @@ theorem candidateOfTag_sound_partial (rx : RegexEngine) (ni : Bool) (o : BinOp) 
       · simp [Candidate.wf, h1, h2]
     case oneOf =>
       cases v <;> simp at hc
+      · simp [applyTagged, Filter.oneOf] at hf
       cases hc
       rename_i vs _
       have hm : (Candidate.multiple vs).mem x = true := by
